@@ -673,6 +673,26 @@ fn main() {
                 ("first-rise".into(), "⊢⍏ []\n".into(), vec![], vec!["[]".into()]),
                 ("first-rise".into(), "F ← ⊢⍏\nF []\n".into(), vec![], vec!["[]".into()]),
             ];
+            // bare reproducers of the defects found so far (stable keys for the known-findings file)
+            for (rule, src, empty) in [
+                ("last-rise", "⊣⍏ [1 2]", false),
+                ("last-rise", "⊣⍏ \"\"", true),
+                ("all-same-rot", "≍↻1. ↯2_0 0", true),
+                ("all-same-by", "≍⊸(↻1) ↯2_0 0", true),
+                ("all-same-stencil", "/×⧈≍ ↯2_0_2 0", true),
+                ("reduce-table", "/↥⊞- [] ↯2_2_2⇡8", true),
+                ("conjoin-inventory", "/◇⊂⍚(⊂0) []", true),
+                ("reduce-content", "≡(¤/◇⊂) []", true),
+                ("split-by-scalar-lit", "⊜□≠@ . [1 2]", false),
+                ("split-by-scalar-lit", "⊜□≠@ . @a", false),
+                ("split-by-scalar-lit", "⊜⧻≠0. 5", false),
+                ("split-by-scalar-lit", "⊜⧻≠0. {1 2}", false),
+                ("square-abs", "×.⌵ [ℂ3 2 ℂ1 2]", false),
+                ("first-where", "⊢⊚ [5 2 ¯1]", false),
+                ("memberof-range-deshape", "∊♭₂⇡ [3 4] \"abc\"", false),
+            ] {
+                progs.push((rule.to_string(), format!("# Experimental!\n{src}\n"), vec![], if empty { vec!["[]".into()] } else { vec![] }));
+            }
             for _ in 0..n {
                 let p = gen_prog(&mut r);
                 let args: Vec<Value> = (0..p.nargs).map(|_| gen_value(&mut r, &cfg, 0)).collect();
